@@ -16,6 +16,14 @@ WORDS = ["alpha", "beta", "gamma", "delta", "epsilon", "zeta", "eta", "theta"]
 KIND = {"text": 1, "style": 2, "ustyle": 4, "break": 3}   # ustyle: a STYLE node whose content is {} (no span attributes)
 
 
+def kind_code(n):
+    """wire code of a node for the flat models (Positioning.v): 1 TEXT, 3 BREAK, STYLE start 2 (tags) / 4 (no tags),
+    STYLE end 5 (tags) / 6 (no tags)"""
+    if n[0] in ("style", "ustyle") and not n[1]:
+        return 5 if n[0] == "style" else 6
+    return KIND[n[0]]
+
+
 def tup(x):
     """JSON lists -> tuples (layouts are nested tuples)"""
     if isinstance(x, list):
@@ -61,13 +69,13 @@ def w_nset(acs):
     for lg in acs["langs"]:
         caps = []
         for c in lg["caps"]:
-            caps.append([w_optlayout(c["layout"]), [[KIND[n[0]], w_optlayout(n[-1])] for n in c["nodes"]]])
+            caps.append([w_optlayout(c["layout"]), [[kind_code(n), w_optlayout(n[-1])] for n in c["nodes"]]])
         langs.append([w_optlayout(lg["layout"]), caps])
     return [w_optlayout(acs["global"]), langs]
 
 
 def w_ncap(c):
-    return [w_optlayout(c["layout"]), [[KIND[n[0]], w_optlayout(n[-1])] for n in c["nodes"]]]
+    return [w_optlayout(c["layout"]), [[kind_code(n), w_optlayout(n[-1])] for n in c["nodes"]]]
 
 
 def w_cfg(cfg):
